@@ -1,5 +1,6 @@
 import ComposeVerif.Model.Template
 import ComposeVerif.Spec.Template
+import ComposeVerif.Model.TemplateDocs
 /-!
 # C07 — statements the implementation does (or did) not satisfy, with concrete witnesses
 
@@ -53,3 +54,26 @@ theorem old_brace_counter_early :
     firstCloseGoOld "${A:-{{x}}}".toList 0 0 = some 9 ∧ firstClose "${A:-{{x}}}".toList = some 10 := by decide
 
 end CV.Template.Neg
+
+/-! 3. **An include entry that writes its lookup through the cloned options pointer** (seed C07-8; not the code).
+   `Options.clone()` copies the `*interp.Options` pointer, so `loadOptions.Interpolate.LookupValue = config.LookupEnv`
+   would overwrite the lookup of the including project: `walkDocsShared` (Model/TemplateDocs.lean).  With `A` unset in
+   the project and set by the include's env file, `$A` in a document interpolated *after* the include yields the
+   include's value.  `Props/C07Docs.load_is_stateless` is the statement the code (a fresh cell per entry) satisfies. -/
+namespace CV.Template.Docs
+open CV.Template CV.Template.Sites
+
+def leakDocs : List Doc := [.incl [(['A'], ['w'])] [], .value ['$', 'A']]
+
+theorem shared_lookup_leaks : loadValuesShared [] leakDocs = [.ok ['w']] := by decide
+
+theorem spec_does_not_leak : specDocs [] leakDocs = [.ok []] := by decide
+
+/-- the walk with a shared lookup cell is not stateless -/
+theorem shared_walk_not_stateless : ¬ (∀ (env : GoMap) (ds : List Doc), loadValuesShared env ds = specDocs env ds) := by
+  intro h
+  have := h [] leakDocs
+  rw [shared_lookup_leaks, spec_does_not_leak] at this
+  cases this
+
+end CV.Template.Docs
